@@ -9,6 +9,10 @@ from props.c04 import TRUSTED
 THEOREMS = ["C07_mirror_x_partial", "C07_mirror_y_partial", "C07_transpose_partial", "C07_length_scaling",
             "C07_velocity_scaling", "C07_velocity_scaling_eig", "C07_sqrt_scale_in_C", "C07_transpose", "C07_transposed_request_geometry",
             "C07_mirror_geometry", "C07_mirror_x", "C07_mirror_x_defect", "C07_mirror_x_odd", "C07_mirror_y", "C07_mirror_y_defect", "C07_mirror_y_odd"]
+# Properties/C07Recentre.v: array-level mirror in dispersion mode WITH the re-centring shift (Proofs/C07MirrorRC.v)
+THEOREMS_RC = ["C07_mirror_recentred_geometry",
+               "C07_mirror_x_recentred", "C07_mirror_x_recentred_defect", "C07_mirror_x_recentred_odd", "C07_mirror_x_recentred_even",
+               "C07_mirror_y_recentred", "C07_mirror_y_recentred_defect", "C07_mirror_y_recentred_odd", "C07_mirror_y_recentred_even"]
 ASSUMPTIONS = [
     "array-level mirror: proved for the fields synthesised without the unpaired (Nyquist) column/row of the retained frequency set, as an exact defect identity for the returned arrays, and for the returned arrays themselves when the clamped mode count is odd; dispersion mode under double storage and the default measurement point (no re-centring shift); footprint mode at both precisions",
     "length scaling of the top condition uses sqrt(r/s^2) = sqrt(r)/s (principal root, real s > 0) as a hypothesis",
@@ -23,6 +27,7 @@ def gen(ctx):
 
 def check(ctx):
     core.check_properties_file(ctx, "Properties/C07.v", THEOREMS, {"C07_sqrt_scale_in_C": core.AX_REALS})
+    core.check_properties_file(ctx, "Properties/C07Recentre.v", THEOREMS_RC, core.AX_NONE)
     solverslices.run(ctx)
     cases = gen(ctx)
     recs = sc.correspond(ctx, cases, "c07_")
@@ -42,6 +47,61 @@ def strip_nyquist(F, nlx, nly):
     H[..., :, np.abs(kx) >= cx] = 0
     H[..., np.abs(ky) >= cy, :] = 0
     return np.fft.ifft2(H, axes=(-2, -1)).real
+
+
+def recentred_points(rng, nx, ny, Lx, Ly):
+    """measurement points that take the re-centring branch (xm^2 + ym^2 > 0) and whose reflections
+    (Lx - xm, ym) and (xm, Ly - ym) take it too: off-grid, on-grid, on one axis (xm = 0 with ym != 0
+    reflects to xm' = Lx), near the far edge"""
+    dx, dy = Lx / nx, Ly / ny
+    return [(0.37 * Lx, 0.61 * Ly),
+            (dx * rng.randrange(1, nx), dy * rng.randrange(ny)),
+            (0.0, dy * rng.randrange(1, ny)),
+            (0.3 * Lx, 0.0),
+            (Lx - dx, Ly - dy),
+            (rng.uniform(0.05, 0.95) * Lx, rng.uniform(0.05, 0.95) * Ly)]
+
+
+def probe_recentred(S, base, rng, fields, rel, tol):
+    """C07_mirror_x/_y_recentred on the real code: dispersion mode, double storage, measurement point
+    other than the origin.  The reflected measurement point is the reflection about the DOMAIN CENTRE,
+    xm' = xmx - xm (ym' = ymx - ym), not about the cell grid.  halo = 0: the returned grid is the
+    periodic grid, so the unpaired Nyquist column/row can be removed by an FFT of the outputs (with an
+    odd clamped mode count nothing is removed and the returned arrays themselves are compared);
+    a second request with a halo is compared directly when both clamped mode counts are odd."""
+    out = []
+    ny, nx = base["q0"].shape
+    Lx, Ly = base["domain"]
+    u, v, Kx, Ky, Kz = base["profiles"]
+    nlx, nly = base["modes"]
+    const = all(float(np.ptp(p)) == 0.0 for p in base["profiles"])
+    rc = dict(base, footprint=False, precision="double", halo=0.0,
+              analytic=bool(const and rng.random() < 0.5),
+              meas_pt=rng.choice(recentred_points(rng, nx, ny, Lx, Ly)))
+    xm, ym = rc["meas_pt"]
+    variants = [("", rc, lambda F: strip_nyquist(F, nlx, nly))]
+    if nx % 2 == 1 and ny % 2 == 1:
+        # odd padded sizes and a mode request above them: the clamp gives odd counts (C07_mirror_*_recentred_odd), any halo
+        dx, dy = Lx / nx, Ly / ny
+        variants.append(("-halo-odd", dict(rc, halo=rng.choice([dx, 1.3 * dx, 2 * dy]), modes=(64, 64)), lambda F: F))
+    for tag, r, flt in variants:
+        c0, f0 = fields(r)
+        bg = r["bg"]
+        mx = dict(r, q0=r["q0"][:, ::-1].copy(), profiles=(-u, v, Kx, Ky, Kz), meas_pt=(Lx - xm, ym))
+        c1, f1 = fields(mx)
+        d = max(rel(flt(f1), flt(f0[:, :, ::-1])), rel(flt(c1 - bg), flt(c0[:, :, ::-1] - bg)))
+        if d > tol:
+            out.append(("mirror-x-recentred" + tag,
+                        "re-centred dispersion request (meas_pt %r, mirrored request at (xmx - xm, ym) = %r): mirrored problem differs from the mirrored fields by %.3g beyond the Nyquist components"
+                        % (r["meas_pt"], mx["meas_pt"], d)))
+        my = dict(r, q0=r["q0"][::-1, :].copy(), profiles=(u, -v, Kx, Ky, Kz), meas_pt=(xm, Ly - ym))
+        c2, f2 = fields(my)
+        d = max(rel(flt(f2), flt(f0[:, ::-1, :])), rel(flt(c2 - bg), flt(c0[:, ::-1, :] - bg)))
+        if d > tol:
+            out.append(("mirror-y-recentred" + tag,
+                        "re-centred dispersion request (meas_pt %r, mirrored request at (xm, ymx - ym) = %r): mirrored problem differs by %.3g beyond the Nyquist components"
+                        % (r["meas_pt"], my["meas_pt"], d)))
+    return out
 
 
 def probe(S, case, rng):
@@ -84,6 +144,7 @@ def probe(S, case, rng):
             rel(strip_nyquist(c2 - base["bg"], nlx, nly), strip_nyquist(c0[:, ::-1, :] - base["bg"], nlx, nly)))
     if d > tol:
         out.append(("mirror-y", "mirrored problem differs by %.3g beyond the Nyquist components" % d))
+    out += probe_recentred(S, base, rng, fields, rel, tol)
     # transpose
     tr = dict(base, q0=base["q0"].T.copy(), profiles=(v, u, Ky, Kx, Kz), domain=(base["domain"][1], base["domain"][0]),
               modes=(nly, nlx), meas_pt=(base["meas_pt"][1], base["meas_pt"][0]))
